@@ -3,7 +3,7 @@
     // C05 — paired emission in codegen and state save/restore in the VM are G-CG / G-VM (the installed Kani crashes on
     // CodeGenerator; State is not constructible under Kani; Verus rejects closures over &mut State): BOUNDED native
     // stand-in on the real engine.
-//# ob name=scoped_constructs_native role=native_bounded fn=compiler::codegen::compile_stmt+vm::{eval_macro,perform_include,perform_super,call_block}+State::{with_execution_state,with_auto_escape} kind=bounded bound="11 scoped constructs (for, for-else taken and not taken, recursive for, with, set-block, filter-block, autoescape, macro, call block, block, include) each wrapped around every other one (121 two-level nestings) with a probe before / inside / after; error paths: failing macro / call block / include / super swallowed by a host function; from-import and extends-in-include inside captures; nested autoescape" stmt="every scoped construct leaves variable scope, output capturing and the auto-escape mode exactly as it found them on every path (including error paths survived by the host), text written after it reaches the real output, assignments made inside loops / with / macros / blocks are invisible outside while top-level and if-branch assignments persist"
+//# ob name=scoped_constructs_native role=native_bounded fn=compiler::codegen::compile_stmt+vm::{eval_macro,perform_include,perform_super,call_block}+State::{with_execution_state,with_auto_escape} kind=bounded bound="11 scoped constructs (for, for-else taken and not taken, recursive for, with, set-block, filter-block, autoescape, macro, call block, block, include) each wrapped around every other one (121 two-level nestings) with a probe before / inside / after; error paths: failing macro / call block / include / super swallowed by a host function; from-import and extends-in-include inside captures; nested autoescape; 6 include outcomes (found, list with missing entries, everything missing with ignore missing) x 8 shells with macros declared before / after the include against the same shell with the included text in place" stmt="every scoped construct leaves variable scope, output capturing and the auto-escape mode exactly as it found them on every path (including error paths survived by the host), text written after it reaches the real output, assignments made inside loops / with / macros / blocks are invisible outside while top-level and if-branch assignments persist"
     fn scoped_constructs_native() {
         use crate::{Environment, Error, ErrorKind, State};
         use crate::value::Value;
@@ -131,6 +131,34 @@
                 Err(_) => panic!("{src:?} panicked"),
             }
         }
+        // an include on every path (found, first of a list missing, everything missing with `ignore missing`) leaves the
+        // includer's scope exactly as text in its place would: macros declared before it still see variables assigned
+        // after it, macros declared after it share the same closure (reference: the same shell with the include tag
+        // replaced by the text it renders)
+        env.add_template("plain.txt", "P").unwrap();
+        let incs = [
+            ("{% include 'missing.txt' ignore missing %}", ""), ("{% include ['m1.txt', 'm2.txt'] ignore missing %}", ""),
+            ("{% include 'plain.txt' %}", "P"), ("{% include ['m1.txt', 'plain.txt'] %}", "P"), ("{% include ['plain.txt', 'm1.txt'] ignore missing %}", "P"),
+            ("{% include name ignore missing %}", ""),
+        ];
+        let shells = [
+            "{% macro m() %}[{{ x }}]{% endmacro %}INC{% set x = 1 %}{{ m() }}",
+            "{% set x = 0 %}{% macro m() %}[{{ x }}]{% endmacro %}INC{% set x = 1 %}{{ m() }}{% macro n() %}<{{ x }}>{% endmacro %}{{ n() }}{% set x = 2 %}{{ m() }}{{ n() }}",
+            "{% for i in [1, 2] %}{% macro m() %}[{{ y }}]{% endmacro %}INC{% set y = i %}{{ m() }}{% endfor %}{{ y is defined }}",
+            "{% with w = 1 %}{% macro m() %}[{{ w }}{{ z }}]{% endmacro %}INC{% set z = 2 %}{{ m() }}{% endwith %}{{ z is defined }}",
+            "{% set c %}{% macro m() %}[{{ x }}]{% endmacro %}INC{% set x = 1 %}{{ m() }}{% endset %}({{ c }})",
+            "INC{% macro m() %}[{{ x }}]{% endmacro %}{% set x = 1 %}{{ m() }}",
+            "{% macro outer() %}{% macro m() %}[{{ x }}]{% endmacro %}INC{% set x = 1 %}{{ m() }}{% endmacro %}{{ outer() }}{{ x is defined }}",
+            "{% macro w() %}{{ caller() }}{% endmacro %}{% call w() %}{% macro m() %}[{{ x }}]{% endmacro %}INC{% set x = 1 %}{{ m() }}{% endcall %}",
+        ];
+        for (tag, text) in incs { for shell in shells {
+            let with_tag = shell.replace("INC", tag);
+            let with_text = shell.replace("INC", text);
+            let ctx = crate::context! { name => "nothing.txt" };
+            let got = env.render_named_str("inc_a.txt", &with_tag, ctx.clone()).unwrap_or_else(|e| panic!("{with_tag:?}: {e:#}"));
+            let want = env.render_named_str("inc_b.txt", &with_text, ctx).unwrap_or_else(|e| panic!("{with_text:?}: {e:#}"));
+            assert!(got == want, "an include changed the includer's scope: {with_tag:?} rendered {got:?}, but with the included text in its place {want:?}");
+        }}
         // macro and call bodies do not write into the closure shared with sibling macros
         let out = env.render_named_str("cl.html", "{% set outer = 'o' %}{% macro a(x) %}[{{ x }}{{ outer }}]{% endmacro %}{% macro b() %}[{{ x|default('unset') }}{{ outer }}]{% endmacro %}{{ a('arg') }}{{ b() }}{{ x is defined }}", ()).unwrap();
         assert!(out == "[argo][unseto]False", "macro argument leaked into a sibling macro: {out:?}");
